@@ -197,6 +197,24 @@ func runC10(c *fw.Ctx) {
 		}
 		c10Case(c, r, genTFTree(r, root, r.Range(2, 5)))
 	})
+	// long paths: chains 20-60 levels deep, long keys
+	c.Cases("deep-paths", c.N(40, 4000), false, func(i int, r *rng.R) {
+		d := r.Range(20, 60)
+		longKey := strings.Repeat("k", []int{1, 40, 300, 2000}[r.Intn(4)])
+		tree := spec.ListV(spec.IntV(1), spec.ObjV("leaf", spec.StrV("v")))
+		for j := 0; j < d; j++ {
+			switch r.Intn(3) {
+			case 0:
+				tree = spec.ListV(spec.NilV(), tree, spec.IntV(j))
+			case 1:
+				tree = spec.ObjV(longKey, tree, "other", spec.IntV(j))
+			default:
+				tree = spec.ObjV(tfKeys[r.Intn(len(tfKeys))], tree)
+			}
+		}
+		c.Count("deep_path_trees")
+		c10Case(c, r, tree)
+	})
 }
 
 func c10Case(c *fw.Ctx, r *rng.R, tree *spec.Spec) {
@@ -287,6 +305,36 @@ func c10Case(c *fw.Ctx, r *rng.R, tree *spec.Spec) {
 			c.Count("random_strings")
 			if !check(randomPathString(r)) {
 				return
+			}
+		}
+		// for every key of the tree that itself contains a sigil: the path that spells it out (read as segments it
+		// addresses something else or nothing) from every object that holds such a key
+		for _, n := range reachable(root) {
+			if n.K != spec.Obj {
+				continue
+			}
+			prefixes := []string{""}
+			for pi, pp := range paths {
+				if vals[pi].Ref == n {
+					prefixes = append(prefixes, pp)
+				}
+			}
+			if n != root && len(prefixes) == 1 {
+				continue
+			}
+			for _, k := range n.SortedKeys() {
+				if model.AddressableKey(k) || k == "" {
+					continue
+				}
+				for _, pre := range prefixes {
+					if pre == "" && n != root {
+						continue
+					}
+					c.Count("sigil_key_paths")
+					if !check(pre+"."+k) || !check(pre+"."+k+".x") || !check(pre+"."+k+"#0") {
+						return
+					}
+				}
 			}
 		}
 		for _, p := range []string{"", ".", "#", "..", "##", ".#", "#.", "invalid", "a", "0"} {
